@@ -95,7 +95,18 @@ class CaseGen:
                 # the name is the lambda's own parameter here: this is a use of the parameter
                 parts.append(f"{p}.u{m}({a}.z)" if "." not in a else f"{p}.u{m}({a})")
                 continue
-            if form == 0:
+            form = r.randint(0, 6) if "." not in a else form
+            if form == 4:
+                # the capture as DEFAULT of a nested lambda's parameter of the same name (a default is evaluated outside the lambda)
+                parts.append(f"{p}.jets.Select(lambda j, {a}={a}: j.h{m}({a}, j.pt))")
+            elif form == 5:
+                # *name / keyword-only parameters of a nested lambda named like the capture: uses inside are the parameter
+                parts.append(f"{p}.fn{m}(lambda *{a}: {a}, lambda j, *, k{m}={a}: (j, k{m}), {a})")
+            elif form == 6 and isinstance(values.get(a), str) and values.get(a) != "THING":
+                # a method of the captured value (methods without parameters: the type follower fills in a builtin's declared
+                # defaults, e.g. strip(None), which is another matter)
+                parts.append(f"{p}.f{m}({a}.upper(), {a}.swapcase().lower())")
+            elif form == 0 or form > 3:
                 parts.append(f"{p}.f{m}({a})")
             elif form == 1:
                 parts.append(f"{p}.g{m}(k={a})")
@@ -334,6 +345,9 @@ def comp_cases(ds, c0):
     out.append(('nested comprehension targets j,k', ds.Select(lambda e: [[k.pt + j.pt for k in j.trks] for j in e.jets]), lambda e: [[k.pt + j.pt for k in j.trks] for j in e.jets]))
     out.append(('capture next to comprehension', ds.Select(lambda e: ([j.pt for j in e.jets], j, k)), lambda e: ([j.pt for j in e.jets], j, k)))
     out.append(('lambda param j inside comprehension over t', ds.Select(lambda e: [t.trks.Select(lambda j: j.pt + k) for t in e.jets]), lambda e: [t.trks.Select(lambda j: j.pt + k) for t in e.jets]))
+    # the FIRST iterable is evaluated outside the comprehension: there the name is the captured variable (decided on the text)
+    out.append(('first iterable is the captured variable', ds.Select(lambda e: [t + e.x for t in t]), "lambda e: 'glob'.Select(lambda t: t + e.x)"))
+    out.append(('first iterable uses the captured variable', ds.Select(lambda e: [k.pt for k in e.pick(k)]), "lambda e: e.pick(7).Select(lambda k: k.pt)"))
     return out
 '''
 
@@ -361,6 +375,10 @@ def comprehension_scope(ctx):
         ctx.case("comprehension:" + desc, True)
         ctx.count("comprehension-scope-cases")
         if pyf is None:
+            continue
+        if isinstance(pyf, str):
+            if astx.unparse(s.query_ast.args[1]) != pyf:
+                ctx.violation("comprehension-scope:first-iterable", f"{desc}: recorded {astx.unparse(s.query_ast.args[1])[:200]}, expected {pyf}", {"comprehension": True})
             continue
         exp = norm(pyf(data))
         lam = s.query_ast.args[1]
